@@ -8,7 +8,7 @@ from .. import common as C
 from ..obs import obs_term
 
 ID = "ASM"
-TABLES = ("Require Import Run.GenBuses Run.GenOpcodes.\n"
+TABLES = ("From A816 Require Model.Table.\n" +"Require Import Run.GenBuses Run.GenOpcodes.\n"
           "Definition T : tables := {| t_low := Run.GenBuses.low_rom_bus; t_high := Run.GenBuses.high_rom_bus; "
           "t_busmap := Run.GenBuses.bus_mapping; t_optable := Run.GenOpcodes.opcode_table; "
           "t_prec := Run.GenOpcodes.operator_precedence |}.")
@@ -68,7 +68,12 @@ def files_term(case) -> str:
     fb = C.clist(bins, lambda kv: C.cpair(C.cstr(kv[0]), C.cbytes(bytes(kv[1]))))
     ips = [(k, v) for k, v in files.items() if isinstance(v, (bytes, list)) and k.endswith(".ips")]
     fi = C.clist(ips, lambda kv: C.cpair(C.cstr(kv[0]), f"(fun d => A816.Model.Ips.read_ips d {C.cbytes(bytes(kv[1]))})"))
-    return f"{{| f_bin := {fb}; f_tables := []; f_ips := {fi} |}}"
+    tbls = [(k, v["tbl"]) for k, v in files.items() if isinstance(v, dict) and "tbl" in v]
+    ft = C.clist(tbls, lambda kv: C.cpair(C.cstr(kv[0]), (
+        "(match A816.Model.Table.table_of_entries "
+        + C.clist(kv[1], lambda tc: f"({C.cstr(tc[0])}, {C.cbytes(bytes(tc[1]))}, None)")
+        + " with Ok tb => Ok (A816.Model.Table.to_bytes tb) | Err k => Err k | OutOfFuel => OutOfFuel end)")))
+    return f"{{| f_bin := {fb}; f_tables := {ft}; f_ips := {fi} |}}"
 
 
 def case_term(case, ob) -> str:
